@@ -3,6 +3,7 @@
 //! `gm_c11`) and evaluates the property oracles on the implementation.
 mod pathgen;
 mod partial;
+mod idem;
 use corrlib::*;
 use pathgen::*;
 use serde_json::json;
@@ -491,6 +492,7 @@ pub fn run(rep: &mut Report) {
     covered_ops(rep, &mut rng);
     rewrite_stream(rep, &mut rng);
     partial::run(rep);
+    idem::run(rep);
     rep.notes.push("Java/Kotlin keys (map_partial_path): see part Partial (src/partial.rs); in the streams above exclusion markers, symlinks and keys whose first character is a cased non-ASCII letter are outside the generated domain; relative keys without source dir are resolved against the process cwd, which the harness sets to <tree>/cw".into());
 }
 
@@ -522,6 +524,7 @@ pub fn replay(rep: &mut Report, case: &serde_json::Value) {
             }
         }
         op if op.starts_with("c11.partial") => partial::replay(rep, case),
+        op if op.starts_with("c11.idem") => idem::replay(rep, case),
         _ => {}
     }
 }
